@@ -596,6 +596,14 @@ func (ex *executor) execFrom(st *pstate, b *ssa.BasicBlock, start int) {
 				continue
 			}
 			if ia, ok := in.Addr.(*ssa.IndexAddr); ok {
+				if a, isA := ia.X.(*ssa.Alloc); isA && a.Comment == "varargs" && varargsOfLibraryCall(a) {
+					// the argument list of a variadic call being filled in: a temporary of this call, not an effect
+					if k, isC := ia.Index.(*ssa.Const); isC {
+						st.elems = st.elemsCopy()
+						st.elems[elemKey{a, tc.Of(k).Sym}] = val
+					}
+					continue
+				}
 				if a := literalArrayOf(ia.X); a != nil {
 					if k, isC := ia.Index.(*ssa.Const); isC && !ex.inLoop[b] {
 						// element of a local array literal: tracked like a local, no effect on outside memory
@@ -754,7 +762,18 @@ func (ex *executor) emit(st *pstate, ret *ssa.Return, panics bool) {
 	p := &Path{Blocks: st.blocks, Conds: st.conds, Effects: st.effects, Ret: ret, Panics: panics, Loads: st.loads, Classes: st.classes, Atoms: st.atoms, Free: st.free, tc: st.tc}
 	if ret != nil {
 		for _, r := range ret.Results {
-			p.RetT = append(p.RetT, st.tc.Of(r))
+			t := st.tc.Of(r)
+			// an error wrapped with fmt.Errorf("… %w …", …, e, …) on a path that has established e != nil is that error
+			// with a message around it (errors.Is / errors.Unwrap see e): the path returns e
+			if e := wrappedError(r); e != nil {
+				te := st.tc.Of(e)
+				for _, cd := range st.conds {
+					if x, neq, ok := nilTest(cd.Term); ok && x.Key() == te.Key() && neq == cd.Taken {
+						t = te
+					}
+				}
+			}
+			p.RetT = append(p.RetT, t)
 		}
 	}
 	// snapshot (state is cloned on branches, so slices are stable here)
